@@ -671,9 +671,11 @@ def slice_adjust(ex, st, n, args):
     st.pc.append(z3.And(lgt >= 0, z3.Implies(length >= 0, lgt <= length),
                         start >= -1, start <= length, stop >= -1,
                         stop <= length))
-    st.pc.append(z3.ForAll([k], z3.Implies(
-        z3.And(k >= 0, k < lgt),
-        z3.And(start + k * step >= 0, start + k * step < length))))
+    # the defining property (for all 0 <= k < lgt: 0 <= start + k*step <
+    # length) is not put into the path condition as a quantified formula
+    # (nonlinear patterns make the solver's answers depend on symbol names);
+    # it is instantiated at the two ends here and at every loop counter by
+    # the loop rule (st.ghost['forall'] below)
     st.pc.append(z3.Implies(lgt > 0, z3.And(
         start >= 0, start < length, start + (lgt - 1) * step >= 0,
         start + (lgt - 1) * step < length)))
@@ -842,6 +844,16 @@ def post_ass_subscr(ex, finished, extra_obs):
                'NotImplementedError or MemoryError (got %s)' % exc)
         elif ex.check(pc, [rv != 0]) == z3.unsat:
             nok += 1
+        # the right-hand side belongs to the caller: its size fields are
+        # only rewritten when it is a temporary made by the conversion
+        rhs = ex.objs.get('val')
+        touched = [s_ for s_ in st.stores if s_[0].kind == 'objfield' and
+                   s_[0].owner is rhs]
+        ob('frame', pc, z3.BoolVal(not touched),
+           'indexed assignment does not modify its right-hand side' + (
+               ' (store to %s at line %s)' % (touched[0][0].name,
+                                             touched[0][4]) if touched
+               else ''))
     ob('covered', [], z3.BoolVal(nok > 0), 'a success path exists')
     return {'success_paths': nok}
 
@@ -1210,8 +1222,7 @@ FUNCS = {
         # precondition (established by the wrapper, see noalias_callee): no
         # index argument is the matrix itself
         'config': {'index_may_alias': False,
-                   'allow_unsupported': ['PySlice', 'spmatrix', 'SP_',
-                                         'sparse']}},
+                   'allow_unsupported': ['spmatrix', 'SP_', 'sparse']}},
     'Matrix_NewFromSequence': {'init': None, 'post': None,
                                'externs': COMMON},
     'Matrix_NewFromPyBuffer': {'init': None, 'post': None,
@@ -1578,6 +1589,103 @@ def list_get_size(ex, st, n, args):
     return IntV(ln, 'long')
 
 
+def matrix_new_from_number(ex, st, n, args):
+    """Matrix_NewFromNumber(nrows, ncols, id, x, scalar): NULL with an
+    exception or a new nrows by ncols matrix of typecode id"""
+    r = toint(ex.ev(args[0], st))
+    c = toint(ex.ev(args[1], st))
+    i = toint(ex.ev(args[2], st))
+    o = ex.new_obj('filled', fresh=True)
+    fails = z3.Bool('NewFromNumber_fails@%s' % n.get('line'))
+    ok = z3.And(r.t >= 0, c.t >= 0, i.t >= 0, i.t <= 2,
+                r.t * c.t <= 2**31 - 1)
+    ex.axioms.append(z3.Implies(z3.Not(ok), fails))
+    ex.axioms.append(z3.Implies(z3.Not(fails), z3.And(
+        o.ismat, o.nrows == r.t, o.ncols == c.t, o.id == i.t)))
+    exc_if(st, fails, 'PyExc_TypeError')
+    return PtrV(None, 0, 'matrix', null=fails, obj=o)
+
+
+def callee_contract(name, idarg):
+    """the contracts of Matrix_NewFromSequence / Matrix_NewFromPyBuffer /
+    dense_concat as proved on their own bodies: NULL with an exception, or a
+    new matrix whose typecode is id when id >= 0"""
+    def h(ex, st, n, args):
+        if st.pure:
+            raise Impure()
+        fails = det_bool(st, n, name + '_fails')
+        d = ex.decide(st, fails)
+        if d is None:
+            raise NeedFork(fails)
+        if d:
+            st.exc = 'PyExc_TypeError'
+            return NULL
+        o = ex.new_obj(name + '_result', fresh=True)
+        idv = toint(ex.ev(args[idarg], st)).t
+        st.pc.append(z3.And(o.ismat, z3.Not(o.issp), o.nrows >= 0,
+                            o.ncols >= 0, o.id >= 0, o.id <= 2,
+                            o.nrows * o.ncols <= 2**31 - 1,
+                            z3.Implies(idv >= 0, o.id == idv)))
+        if len(args) > 2:
+            p = ex.ev(args[2], st)
+            if isinstance(p, PtrV):
+                nd = ex.fresh_int('ndim', 'int')
+                ex.store_through(p, nd, st, n)
+        return PtrV(None, 0, 'matrix', obj=o)
+    return h
+
+
+def init_matrix_new(ex, st, params):
+    st.vars[params[0]['id']] = PtrV(None, 0, 'PyTypeObject',
+                                    obj=ex.new_obj('type'))
+    for p in params[1:]:
+        st.vars[p['id']] = PtrV(None, 0, 'PyObject', obj=ex.new_obj(
+            p['name']))
+
+
+def post_matrix_new_tp(ex, finished, extra_obs):
+    """matrix(x, size, tc): with tc given the result has that typecode; with
+    size given it has exactly that size (as Python integers)"""
+    ob = mk_ob(ex, extra_obs)
+    nok = 0
+    for st, kind, val in finished:
+        if is_error(val) or not isinstance(val, PtrV) or val.obj is None:
+            continue
+        pc = st.path()
+        if val.null is not None:
+            pc = pc + [z3.Not(val.null)]
+        parsed = st.ghost.get('parsed', {})
+        nok += 1
+        r = val.obj
+        nr = field(ex, st, r, 'nrows', r.nrows)
+        nc = field(ex, st, r, 'ncols', r.ncols)
+        tc = parsed.get('tc')
+        if tc is not None and not isinstance(tc, PyObj):
+            want = z3.If(tc == ord('i'), 0, z3.If(tc == ord('d'), 1, 2))
+            ob('constructor-postcondition', pc, z3.Implies(
+                tc != 0, r.id == want),
+               'matrix(..., tc=c) has typecode c')
+        a0, a1 = parsed.get('arg0'), parsed.get('arg1')
+        size = parsed.get('size')
+        if a0 is not None and a1 is not None and isinstance(size, PyObj):
+            given = z3.Bool('given(%s)' % size.name)
+            ob('constructor-postcondition', pc, z3.Implies(
+                given, z3.And(nr == a0, nc == a1)),
+               'matrix(..., size=(m, n)) has size (m, n)')
+    ob('covered', [], z3.BoolVal(nok > 0), 'a success path exists')
+    return {'success_paths': nok}
+
+
+FUNCS['matrix_new'] = {
+    'init': init_matrix_new, 'post': post_matrix_new_tp,
+    'externs': dict(COMMON, **{
+        'Matrix_NewFromNumber': matrix_new_from_number,
+        'Matrix_NewFromSequence': callee_contract('NewFromSequence', 1),
+        'Matrix_NewFromPyBuffer': callee_contract('NewFromPyBuffer', 1),
+        'dense_concat': callee_contract('dense_concat', 1),
+        'PyObject_CheckBuffer': check_buffer}),
+    'config': {'allow_unsupported': ['dense', 'spmatrix', 'SP_', 'sparse']}}
+
 FUNCS['dense_concat'] = {
     'init': init_concat, 'post': post_concat,
     'externs': dict(COMMON, **{'PyList_GET_SIZE': list_get_size,
@@ -1589,7 +1697,11 @@ FUNCS['matrix_subscr']['externs'] = dict(COMMON, **{
     'create_indexlist': create_indexlist, 'write_num[]': write_num_gather,
     'PySlice_GetIndicesEx': slice_get_indices,
     'PySlice_Unpack': slice_unpack, 'PySlice_AdjustIndices': slice_adjust})
-# the two-slice fast path of indexed ASSIGNMENT is left as an abandoned path:
+for _k, _v in (('PySlice_GetIndicesEx', slice_get_indices),
+               ('PySlice_Unpack', slice_unpack),
+               ('PySlice_AdjustIndices', slice_adjust)):
+    FUNCS['matrix_ass_subscr_noalias']['externs'][_k] = _v
+# (history) the two-slice fast path of indexed ASSIGNMENT was an abandoned path:
 # its obligations are proved for matrix_subscr but take z3 minutes here
 # (nonlinear arithmetic under quantified slice facts); slices that go through
 # create_indexlist are covered by that contract
